@@ -54,16 +54,18 @@ structure Flags where
   errorPrunesHead : Bool    -- http_sconn_error: no body in an error answer to HEAD
   cbdonePrunesHead : Bool   -- http_sconn_cbdone: no body in any answer to HEAD
   iserrReset : Bool         -- nni_http_conn_reset clears conn->iserr
+  wrStrict : Bool := true   -- http_prepare formats into the connection buffer only when len < bufsz
 deriving Repr, DecidableEq
 
 def flags : Flags :=
   { clenValidated := Generated.httpSrvClenValidated, parseErrorCloses := Generated.httpSrvParseErrorCloses,
     errorPrunesHead := Generated.httpSrvErrorPrunesHead, cbdonePrunesHead := Generated.httpSrvCbdonePrunesHead,
-    iserrReset := Generated.httpSrvIserrReset }
+    iserrReset := Generated.httpSrvIserrReset, wrStrict := Generated.httpWrFixedIfLess }
 
 /-- the repaired code -/
 def fixed : Flags :=
-  { clenValidated := true, parseErrorCloses := true, errorPrunesHead := true, cbdonePrunesHead := true, iserrReset := true }
+  { clenValidated := true, parseErrorCloses := true, errorPrunesHead := true, cbdonePrunesHead := true, iserrReset := true,
+    wrStrict := true }
 
 def sHEAD : Bytes := asc "HEAD"
 def sConnection : Bytes := asc "Connection"
@@ -314,6 +316,27 @@ def serverError (pages : List (Nat × Bytes)) (r : Res) : Res :=
 /-- nni_http_write_res: the bytes put on the wire -/
 def wire (r : Res) : Bytes := emitRes r.m (getReason r.m) ++ r.body
 
+/-! ### http_prepare: where the head is formatted -/
+
+/-- `true`: http_prepare uses the connection buffer only when `len < bufsz` (extracted) -/
+def wrStrict : Bool := Generated.httpWrFixedIfLess
+
+/-- http_snprintf into a buffer of `cap` bytes: the text cut to cap-1 bytes, then NUL (the pieces are written with the
+    remaining size each, nothing once the size is used up) -/
+def snprintfBuf (cap : Nat) (text : Bytes) : Bytes := if cap = 0 then [] else text.take (cap - 1) ++ [0]
+
+/-- http_prepare and the first iov of nni_http_write_req / nni_http_write_res: the `len` bytes handed to the stream for
+    the head `head` (`len` = its rendered length).  `strict`: the fixed buffer is chosen by `len < bufsz` (else by
+    `len <= bufsz`); `unread`: the buffer holds received bytes not yet consumed (rd_get ≠ rd_put), which forces the
+    heap copy of len+1 bytes -/
+def prepared (strict unread : Bool) (head : Bytes) : Bytes :=
+  let len := head.length
+  if (if strict then decide (len < bufsz) else decide (len ≤ bufsz)) && !unread then (snprintfBuf bufsz head).take len
+  else (snprintfBuf (len + 1) head).take len
+
+/-- the bytes of a response as they reach the stream -/
+def wireOut (strict : Bool) (r : Res) : Bytes := prepared strict false (emitRes r.m (getReason r.m)) ++ r.body
+
 /-- http_sconn_error: the response bytes and the new `iserr` -/
 def sconnError (f : Flags) (pages : List (Nat × Bytes)) (m : Msg) (iserr : Bool) (status : Nat) (close : Bool) : Res :=
   let r1 := serverError pages { m := setStatus m status, body := [], iserr := iserr }
@@ -430,11 +453,11 @@ def serveOne (f : Flags) (srv : Server) (rd : Msg → Bytes → Head) (sc : SCon
       let m1 := finishReset m
       let r := runKind h.kind h.id { m := m1, body := [], iserr := iserr }
       let (r2, close2) := cbDone f srv.pages r rx.close
-      after (handlerEv h m1 body ++ [.write (wire r2)]) r2.m r2.iserr close2 rest' rx.unconsumed
+      after (handlerEv h m1 body ++ [.write (wireOut f.wrStrict r2)]) r2.m r2.iserr close2 rest' rx.unconsumed
     match rx.d with
     | .error st =>
       let r := sconnError f srv.pages m iserr st rx.close
-      after [.write (wire r)] r.m r.iserr rx.close rest rx.unconsumed
+      after [.write (wireOut f.wrStrict r)] r.m r.iserr rx.close rest rx.unconsumed
     | .body h k => if k > rest.length then ([], none) else handle h (rest.take k) (rest.drop k)
     | .run h => handle h [] rest
 
